@@ -30,7 +30,7 @@ prop('C01',
      assumptions=E1_ASSUME,
      parts=[
          dict(name='shapes', engine='E1', kind='gen', gen='lens', pkg='gen', test='TestShapes',
-              quick=dict(shapes=12, pkgs=4, draws=25), thorough=dict(shapes=40, pkgs=32, draws=100, timeout=3000)),
+              quick=dict(shapes=12, pkgs=4, draws=25), thorough=dict(shapes=30, pkgs=24, draws=100, timeout=3000)),
          dict(name='dyn', engine='E2', pkg='optdyn', test='TestDyn',
               quick=dict(cases=12000, shards=2), thorough=dict(cases=150000, shards=16, timeout=3000)),
      ],
@@ -51,7 +51,7 @@ prop('C02',
      assumptions=E1_ASSUME,
      parts=[
          dict(name='shapes', engine='E1', kind='gen', gen='lens', pkg='gen', test='TestShapes',
-              quick=dict(shapes=12, pkgs=4, draws=25), thorough=dict(shapes=40, pkgs=32, draws=100, timeout=3000)),
+              quick=dict(shapes=12, pkgs=4, draws=25), thorough=dict(shapes=30, pkgs=24, draws=100, timeout=3000)),
          dict(name='dyn', engine='E2', pkg='optdyn', test='TestDyn',
               quick=dict(cases=12000, shards=2), thorough=dict(cases=150000, shards=16, timeout=3000)),
      ],
@@ -70,7 +70,7 @@ prop('C03',
      assumptions=E1_ASSUME,
      parts=[
          dict(name='shapes', engine='E1', kind='gen', gen='lens', pkg='gen', test='TestShapes',
-              quick=dict(shapes=12, pkgs=4, draws=2), thorough=dict(shapes=40, pkgs=32, draws=2, timeout=3000)),
+              quick=dict(shapes=12, pkgs=4, draws=2), thorough=dict(shapes=30, pkgs=24, draws=2, timeout=3000)),
          dict(name='dyn', engine='E2', pkg='optdyn', test='TestDyn',
               quick=dict(cases=12000, shards=2), thorough=dict(cases=150000, shards=16, timeout=3000)),
      ],
@@ -92,7 +92,7 @@ prop('C04',
                               'values written through converting lenses are compared semantically (a conversion may allocate), everything around them byte by byte'],
      parts=[
          dict(name='compose', engine='E1', kind='gen', gen='compose', pkg='gen', test='TestShapes',
-              quick=dict(shapes=10, pkgs=4, draws=25), thorough=dict(shapes=30, pkgs=32, draws=100, timeout=3000)),
+              quick=dict(shapes=10, pkgs=4, draws=25), thorough=dict(shapes=24, pkgs=24, draws=100, timeout=3000)),
      ],
      manifest=dict(
          engine='E1', design_ref='3/E1, 4/C04',
@@ -112,7 +112,7 @@ prop('C05',
      assumptions=E3_ASSUME,
      parts=[
          dict(name='rapid', engine='E3', pkg='pipes', test='TestC05',
-              quick=dict(cases=8000, shards=4), thorough=dict(cases=150000, shards=16, timeout=3000)),
+              quick=dict(cases=20000, shards=4), thorough=dict(cases=900000, shards=16, timeout=3000)),
      ],
      manifest=dict(
          engine='E3', design_ref='3/E3, 4/C05',
@@ -136,7 +136,7 @@ prop('C06',
          dict(name='cancel-enum', engine='E3', pkg='pipes', test='TestC06Cancel', kind='plain',
               quick=dict(shards=8), thorough=dict(shards=16, timeout=3000, env=dict(VERIF_C06_REPEAT=8))),
          dict(name='rapid', engine='E3', pkg='pipes', test='TestC06',
-              quick=dict(cases=6000, shards=8), thorough=dict(cases=150000, shards=16, timeout=3000)),
+              quick=dict(cases=15000, shards=8), thorough=dict(cases=900000, shards=16, timeout=3000)),
      ],
      manifest=dict(
          engine='E3', design_ref='3/E3, 4/C06',
@@ -157,7 +157,7 @@ prop('C07',
          dict(name='enum', engine='E3', pkg='pipes', test='TestC07Enum', kind='plain',
               quick=dict(shards=8), thorough=dict(shards=16, timeout=3000)),
          dict(name='rapid', engine='E3', pkg='pipes', test='TestC07',
-              quick=dict(cases=4000, shards=8), thorough=dict(cases=100000, shards=16, timeout=3000)),
+              quick=dict(cases=10000, shards=8), thorough=dict(cases=800000, shards=16, timeout=3000)),
      ],
      manifest=dict(
          engine='E3', design_ref='3/E3, 4/C07',
@@ -176,7 +176,7 @@ prop('C08',
      assumptions=E3_ASSUME + ['no send is started after a completed cancel (the library closes the send side on cancel by design); a send racing the cancel may complete, give up or hit the closed channel - only completed sends enter the model'],
      parts=[
          dict(name='rapid', engine='E3', pkg='pipes', test='TestC08',
-              quick=dict(cases=6000, shards=4), thorough=dict(cases=100000, shards=16, timeout=3000)),
+              quick=dict(cases=12000, shards=4), thorough=dict(cases=600000, shards=16, timeout=3000)),
      ],
      manifest=dict(
          engine='E3', design_ref='3/E3, 4/C08',
@@ -198,9 +198,9 @@ prop('C09',
                               'in the free-running tier a hang is a 20 s timeout and reported as inconclusive; termination is decided by the bubble tier'],
      parts=[
          dict(name='gated', engine='E4', pkg='pipes', test='TestC09',
-              quick=dict(cases=5000, shards=6), thorough=dict(cases=60000, shards=16, timeout=3000)),
+              quick=dict(cases=5000, shards=6), thorough=dict(cases=240000, shards=16, timeout=3000)),
          dict(name='race', engine='E4', pkg='pipes', test='TestC09Race', race=True, replay_test='TestReplayFree', env=dict(GORACE='halt_on_error=1'),
-              quick=dict(cases=500, shards=4), thorough=dict(cases=5000, shards=16, timeout=3000)),
+              quick=dict(cases=500, shards=4), thorough=dict(cases=20000, shards=16, timeout=3000)),
      ],
      manifest=dict(
          engine='E4', design_ref='3/E4, 4/C09',
@@ -218,9 +218,9 @@ prop('C10',
      assumptions=E3_ASSUME + ['integer overflow wraps (still commutative and associative); product inputs are distinct primes with at most 15 elements'],
      parts=[
          dict(name='gated', engine='E4', pkg='pipes', test='TestC10',
-              quick=dict(cases=5000, shards=4), thorough=dict(cases=50000, shards=16, timeout=3000)),
+              quick=dict(cases=8000, shards=4), thorough=dict(cases=250000, shards=16, timeout=3000)),
          dict(name='race', engine='E4', pkg='pipes', test='TestC10Race', race=True, replay_test='TestReplayFree', env=dict(GORACE='halt_on_error=1'),
-              quick=dict(cases=400, shards=2), thorough=dict(cases=4000, shards=16, timeout=3000)),
+              quick=dict(cases=640, shards=2), thorough=dict(cases=20000, shards=16, timeout=3000)),
      ],
      manifest=dict(
          engine='E4', design_ref='3/E4, 4/C10',
@@ -238,7 +238,7 @@ prop('C11',
      assumptions=E3_ASSUME + ['pacing is checked on the virtual clock, i.e. the logic of sleeping, not scheduler latency'],
      parts=[
          dict(name='rapid', engine='E3', pkg='pipes', test='TestC11',
-              quick=dict(cases=5000, shards=4), thorough=dict(cases=80000, shards=16, timeout=3000)),
+              quick=dict(cases=10000, shards=4), thorough=dict(cases=800000, shards=16, timeout=3000)),
      ],
      manifest=dict(
          engine='E3', design_ref='3/E3, 4/C11',
@@ -255,7 +255,7 @@ prop('C13',
      assumptions=E3_ASSUME + ['rate bound as stated by the property (2*ops+1+c per interval window), timestamps taken at the consumer'],
      parts=[
          dict(name='rapid', engine='E3', pkg='pipes', test='TestC13',
-              quick=dict(cases=5000, shards=4), thorough=dict(cases=60000, shards=16, timeout=3000)),
+              quick=dict(cases=10000, shards=4), thorough=dict(cases=600000, shards=16, timeout=3000)),
      ],
      manifest=dict(
          engine='E3', design_ref='3/E3, 4/C13',
@@ -271,7 +271,7 @@ prop('C12',
      assumptions=E3_ASSUME,
      parts=[
          dict(name='rapid', engine='E3', pkg='pipes', test='TestC12',
-              quick=dict(cases=6000, shards=4), thorough=dict(cases=100000, shards=16, timeout=3000)),
+              quick=dict(cases=12000, shards=4), thorough=dict(cases=600000, shards=16, timeout=3000)),
      ],
      manifest=dict(
          engine='E3', design_ref='3/E3, 4/C12',
@@ -291,7 +291,7 @@ prop('C14',
      parts=[
          dict(name='enum', engine='E5', pkg='iters', test='TestC14Enum', kind='plain', quick=dict(shards=4), thorough=dict(shards=8)),
          dict(name='rapid', engine='E5', pkg='iters', test='TestC14',
-              quick=dict(cases=150000, shards=4), thorough=dict(cases=1500000, shards=16, timeout=2400)),
+              quick=dict(cases=150000, shards=4), thorough=dict(cases=4500000, shards=16, timeout=2400)),
      ],
      manifest=dict(
          engine='E5', design_ref='4/C14',
@@ -312,7 +312,7 @@ prop('C15',
      parts=[
          dict(name='enum', engine='E5', pkg='iters', test='TestC15Enum', kind='plain', quick=dict(shards=4), thorough=dict(shards=8)),
          dict(name='rapid', engine='E5', pkg='iters', test='TestC15',
-              quick=dict(cases=150000, shards=4), thorough=dict(cases=1500000, shards=16, timeout=2400)),
+              quick=dict(cases=150000, shards=4), thorough=dict(cases=4500000, shards=16, timeout=2400)),
      ],
      manifest=dict(
          engine='E5', design_ref='4/C15',
@@ -335,7 +335,7 @@ prop('C16',
      parts=[
          dict(name='enum', engine='E5', pkg='ducts', test='TestC16Enum', kind='plain', quick=dict(shards=4), thorough=dict(shards=16, timeout=2400)),
          dict(name='rapid', engine='E5', pkg='ducts', test='TestC16',
-              quick=dict(cases=20000, shards=4), thorough=dict(cases=300000, shards=16, timeout=2400)),
+              quick=dict(cases=20000, shards=4), thorough=dict(cases=600000, shards=16, timeout=2400)),
      ],
      manifest=dict(
          engine='E5', design_ref='4/C16',
@@ -357,7 +357,7 @@ prop('C17',
      parts=[
          dict(name='grid', engine='E7', pkg='c17', test='TestC17Grid', kind='plain', quick=dict(shards=1), thorough=dict(shards=1)),
          dict(name='rapid', engine='E7', pkg='c17', test='TestC17',
-              quick=dict(cases=150000, shards=1), thorough=dict(cases=2000000, shards=16, timeout=1800)),
+              quick=dict(cases=150000, shards=1), thorough=dict(cases=6000000, shards=16, timeout=1800)),
      ],
      manifest=dict(
          engine='E7', design_ref='4/C17',
@@ -382,7 +382,7 @@ prop('C18',
          dict(name='enum', engine='E6', pkg='c18', test='TestC18Enum', kind='plain',
               quick=dict(shards=4), thorough=dict(shards=16, timeout=3000)),
          dict(name='rapid', engine='E6', pkg='c18', test='TestC18',
-              quick=dict(cases=15000, shards=4), thorough=dict(cases=80000, shards=16, timeout=3000)),
+              quick=dict(cases=15000, shards=4), thorough=dict(cases=240000, shards=16, timeout=3000)),
      ],
      manifest=dict(
          engine='E6', design_ref='4/C18',
@@ -405,7 +405,7 @@ prop('C19',
      parts=[
          dict(name='enum', engine='E6', pkg='c19', test='TestC19Enum', kind='plain', quick=dict(shards=1), thorough=dict(shards=1, timeout=1800)),
          dict(name='rapid', engine='E6', pkg='c19', test='TestC19',
-              quick=dict(cases=40000, shards=1), thorough=dict(cases=400000, shards=16, timeout=1800)),
+              quick=dict(cases=80000, shards=1), thorough=dict(cases=1600000, shards=16, timeout=1800)),
      ],
      manifest=dict(
          engine='E6', design_ref='4/C19',
@@ -427,7 +427,7 @@ prop('C20',
          dict(name='each', engine='E7', pkg='c20', test='TestC20Each', kind='plain',
               quick=dict(shards=1), thorough=dict(shards=1)),
          dict(name='rapid', engine='E7', pkg='c20', test='TestC20',
-              quick=dict(cases=40000, shards=1), thorough=dict(cases=800000, shards=16, timeout=1800)),
+              quick=dict(cases=80000, shards=1), thorough=dict(cases=4000000, shards=16, timeout=1800)),
      ],
      manifest=dict(
          engine='E7', design_ref='4/C20',
